@@ -49,6 +49,7 @@ def _hoist_lambda(R, name, header, body, captures):
         if ref:
             lb = re.sub(r'\b%s\b' % nm, '(*%s)' % nm, lb)
     hoisted = "static int %s_lambda0(%s)\n%s\n" % (name, params, lb)
+    _hoist_lambda.fid_view = body[:m.start()] + hoisted + "%s_lambda0(%s)" % (name, args) + rest[m2.end():]
     body = body[:m.start()] + "%s_lambda0(%s)" % (name, args) + rest[m2.end():]
     R.counts["R7-hoist"] = R.counts.get("R7-hoist", 0) + 1
     return hoisted, body
@@ -115,7 +116,7 @@ def emit(R, rules=RULES, funcs=FUNCS, contracts=None, loop_contracts=None, minim
                 out.append('#line %d "%s"' % (p.line, X.REPO + "/" + p.rel))
             out.append("static " + X.splice(t_h, t_b, contracts.get(name), loop_contracts.get(name)))
             if rule == rules[0]:
-                fid_src.append(p.src_header + p.src_body); fid_emit.append(t_h + hoisted + t_b)
+                fid_src.append(p.src_header + p.src_body); fid_emit.append(t_h + (_hoist_lambda.fid_view if hoisted else t_b))
                 info["functions"].append({"name": p.name, "file": p.rel, "line": p.line,
                                           "loops": X.count_loops(t_b), "instantiated_for": list(rules)})
     mn = {"R3-template-header": len(rules) * len(funcs), "R3-enum-const": 3 * len(rules),
@@ -125,5 +126,5 @@ def emit(R, rules=RULES, funcs=FUNCS, contracts=None, loop_contracts=None, minim
     mn.update(minima or {})
     R.require(mn)
     info["fidelity"] = X.fidelity("\n".join(fid_src), "\n".join(fid_emit),
-                                  extra_vocab=["isSupported", "abs", "min", "max_ancestors", "level", "int"])
+                                  extra_vocab=["isSupported", "abs", "min", "max_ancestors", "level", "int"], slack=4)
     return "\n".join(out) + "\n", info
